@@ -222,6 +222,9 @@ static void part_c(report& r, bool thorough)
         {"geometric-1/3", [=](sz i) { return std::pow(third, T(i % 60)); }},
         {"geometric-0.99", [=](sz i) { return std::pow(T(0.99L), T(i % 3000)); }},
         {"large-and-small-bins", [=](sz i) { return i % 3 == 0 ? std::ldexp(T(1) + T(i % 5) * eps, 30) : T(1) + T(i % 11) * eps; }},
+        // the same shapes scaled to the bottom of the exponent range (compensations are subnormal there)
+        {"tiny/one-large-then-small", [=](sz i) { T const sc = std::ldexp(T(1), std::numeric_limits<T>::min_exponent + 3); return (i == 0 ? T(1) : eps * T(0.75)) * sc; }},
+        {"tiny/alternating", [=](sz i) { T const sc = std::ldexp(T(1), std::numeric_limits<T>::min_exponent + 3); return (i % 2 ? T(-1) : T(1)) * (T(1) + T(i % 7) * eps) * sc; }},
         {"mixed-magnitudes", [=](sz i) { return std::ldexp(T(1) + T(vf::splitmix64(i) % 1024) * eps, int(vf::splitmix64(i + 77) % 40) - 20) * ((vf::splitmix64(i + 5) & 1) ? T(1) : T(-1)); }},
     };
     for (auto const& f : fams)
